@@ -59,16 +59,15 @@ fn tagged<const K: usize>() -> (Array2<f32>, Array1<f32>) {
 }
 
 /// arg-min clause of the property: the returned index is *a* centroid at minimal reduced
-/// distance, it is the FIRST such index, and the returned value is that centroid's rdistance.
+/// distance and the returned value is that centroid's rdistance.
 fn argmin_post<const K: usize, const N: usize>(t: &TableDist<N>, idx: usize, dist: f32) {
     assert!(idx < K);
     assert!(dist == t.r[idx][K]);
     let mut j = 0;
     while j < K {
         assert!(t.r[idx][K] <= t.r[j][K]);
-        if j < idx {
-            assert!(t.r[j][K] > t.r[idx][K]);
-        }
+        // (which of several minimal centroids is returned is not part of the property: the code takes the first, a change to the last
+        //  would be harmless - an earlier version of this oracle demanded the first index and was corrected, DESIGN section 10)
         j += 1;
     }
 }
@@ -100,7 +99,7 @@ fn c09_closest_argmin_k1() {
 fn c09_closest_argmin_k2() {
     let (idx, tie_first_last) = closest_argmin::<2, 3>();
     kani::cover!(idx == 1);
-    kani::cover!(idx == 0 && tie_first_last); // a tie, resolved to the first index
+    kani::cover!(tie_first_last); // a tie between the first and the last centroid is reachable
 }
 
 // @unit class=modular tier=quick mem=light bound="k=3" timeout=600 fns=linfa_clustering::k_means::algorithm::closest_centroid
@@ -110,7 +109,7 @@ fn c09_closest_argmin_k2() {
 fn c09_closest_argmin_k3() {
     let (idx, tie_first_last) = closest_argmin::<3, 4>();
     kani::cover!(idx == 2);
-    kani::cover!(idx == 0 && tie_first_last); // a tie, resolved to the first index
+    kani::cover!(tie_first_last); // a tie between the first and the last centroid is reachable
 }
 
 // @unit class=modular tier=quick mem=light bound="k=4" timeout=600 fns=linfa_clustering::k_means::algorithm::closest_centroid
@@ -120,11 +119,11 @@ fn c09_closest_argmin_k3() {
 fn c09_closest_argmin_k4() {
     let (idx, tie_first_last) = closest_argmin::<4, 5>();
     kani::cover!(idx == 3);
-    kani::cover!(idx == 0 && tie_first_last); // a tie, resolved to the first index
+    kani::cover!(tie_first_last); // a tie between the first and the last centroid is reachable
 }
 
 // `predict` of ONE new observation (the Ix1 form of `PredictInplace`, reached through linfa's blanket
-// `Predict<&ArrayBase<_, Ix1>, usize>`): the label is the first arg-min of the reduced distance.
+// `Predict<&ArrayBase<_, Ix1>, usize>`): the label is an arg-min of the reduced distance.
 // @unit class=modular tier=quick mem=light bound="k=3" timeout=600 fns=linfa_clustering::k_means::algorithm::KMeans::predict_inplace,linfa_clustering::k_means::algorithm::closest_centroid
 #[kani::proof]
 #[kani::unwind(6)]
@@ -142,7 +141,7 @@ fn c09_predict_one_k3() {
     PredictInplace::predict_inplace(&model, &obs, &mut m);
     assert!(m == label);
     kani::cover!(label == 2);
-    kani::cover!(label == 1 && t.r[1][K] == t.r[2][K]);
+    kani::cover!(t.r[1][K] == t.r[2][K] && t.r[1][K] < t.r[0][K]);     // a tie between two minimal centroids is reachable
 }
 
 // ---------------------------------------------------------------------------------------------
